@@ -322,3 +322,8 @@ def replay(clause, case_j, col):
     else:
         c["content"] = eval(c["content"])  # noqa: S307  (repr of the str)
     check(c, col)
+
+
+def cg_plan(seed):
+    """coverage-guided shards of the thorough tier (harness/cg.py): same strategies and check functions, choices from libFuzzer"""
+    return [{"seed": seed * 1000 + 900 + k, "n": 0, "cg": {"runs": 100000}} for k in range(4)]
